@@ -430,6 +430,7 @@ func C12(e *core.Env) int {
 	}
 	c12Shared(e, rep, bin, root)
 	c12EnumSiblings(e, rep, bin, root)
+	c12RelativeGlobal(e, rep, bin, root)
 	c12Invalid(e, rep, bin, root)
 	return rep.Finish()
 }
@@ -853,6 +854,39 @@ func c12EnumSiblings(e *core.Env, rep *core.Report, bin, root string) {
 		rep.NonTrivial(fmt.Sprintf("enumsiblings|%s|%s|%v", scs[i].level, scs[i].line, scs[i].offOne))
 	}
 	rep.Extra["enum_sibling_scenarios"] = len(scs)
+}
+
+// c12RelativeGlobal: a CLI-level setting that names a package RELATIVE to the converter (`-g "extend ./helper:F"`,
+// `-g "wrapErrorsUsing ./helper"`-style paths) is resolved for every converter of the run against that converter's own
+// package - also for the second and third package of the run.
+func c12RelativeGlobal(e *core.Env, rep *core.Report, bin, root string) {
+	for _, order := range [][]string{{"./a", "./b", "./c"}, {"./c", "./b", "./a"}, {"./b"}} {
+		name := "rg" + strings.NewReplacer("./", "", " ", "").Replace(strings.Join(order, ""))
+		dir := filepath.Join(root, name)
+		files := map[string]string{}
+		for _, pk := range []string{"a", "b", "c"} {
+			files[pk+"/input.go"] = "package " + pk + "\n\ntype In struct{ V int }\ntype Out struct{ V string }\n\n// goverter:converter\ntype Conv interface {\n\tConvert(source In) Out\n}\n"
+			files[pk+"/helper/h.go"] = "package helper\n\nfunc IntToString(i int) string { return \"" + pk + "\" }\n"
+		}
+		writeFiles(dir, files)
+		gr := runGen(e, bin, dir, dir, append([]string{"gen", "-g", "extend ./helper:IntToString"}, order...), nil)
+		rep.Evaluations++
+		rep.NonTrivial("relativeglobal|" + strings.Join(order, ","))
+		det := fmt.Sprintf("args: gen -g 'extend ./helper:IntToString' %v\nexit=%d stderr=%s", order, gr.Exit, head(gr.Stderr, 1000))
+		if gr.Exit != 0 {
+			rep.Violation(&core.Viol{Kind: "relative_global", Case: name, Summary: "a CLI-level extend with a converter-relative package path failed for a run over several packages: " + firstLine(gr.Stderr), Detail: det, Dir: dir, Tags: []string{"setting:extend", "relative-global"}})
+			continue
+		}
+		for _, pat := range order {
+			pk := strings.TrimPrefix(pat, "./")
+			out := gr.Files[pk+"/generated/generated.go"]
+			want := "vcase/" + name + "/" + pk + "/helper"
+			if !strings.Contains(out, want+"\"") || !strings.Contains(out, ".IntToString(") {
+				rep.Violation(&core.Viol{Kind: "relative_global", Case: name, Summary: "converter of package " + pk + " does not use the function of ITS OWN ./helper package given by the CLI-level extend", Detail: det + "\n--- output ---\n" + head(out, 1500), Dir: dir, Tags: []string{"setting:extend", "relative-global"}})
+			}
+		}
+	}
+	rep.Extra["relative_global_programs"] = 3
 }
 
 // namesCLI: the diagnostic says that the setting was given on the command line (wording is not prescribed).
